@@ -198,4 +198,167 @@ theorem scaled_empty (p : ScaledP) (base : AssetProblem) (dtSum : Rat) (h : base
     buildScaled p base dtSum = base := by
   unfold buildScaled; rw [if_pos h]
 
+/-! ## structured asset -/
+
+/-- dispatch rows of an asset sit at the asset's own nodes (part of `C01.WF`; evaluated by the harness on
+    every captured real asset problem) -/
+def DispAtOwnNodes (a : AssetProblem) : Prop :=
+  ∀ m ∈ a.mapping, m.kind = .d → ∀ n, m.node = some n → n ∈ a.nodes
+
+/-- **C16 (structured vs flat, variables).**  The portfolio with the structured asset and the flat
+    portfolio with the inner assets in its place have the same cost vector and the same bounds: the
+    variables correspond one to one, in the same order (no permutation is needed). -/
+theorem structured_flat_vectors (name : String) (ext : List String) (outer inner : List AssetProblem)
+    (gridI : List Nat) (skip : List String) :
+    (assemble (outer ++ [structured name ext inner gridI]) gridI skip).c = (assemble (outer ++ inner) gridI skip).c ∧
+    (assemble (outer ++ [structured name ext inner gridI]) gridI skip).l = (assemble (outer ++ inner) gridI skip).l ∧
+    (assemble (outer ++ [structured name ext inner gridI]) gridI skip).u = (assemble (outer ++ inner) gridI skip).u := by
+  refine ⟨?_, ?_, ?_⟩
+  · rw [assemble_c, assemble_c, assembleFrom_append_c, assembleFrom_append_c, assembleFrom_cons_c, assembleFrom_nil,
+      List.append_nil]
+    show _ ++ (assembleFrom 0 inner).c = _
+    rw [assembleFrom_c_off 0 (0 + (outer.map (·.n)).sum) inner]
+  · rw [assemble_l, assemble_l, assembleFrom_append_l, assembleFrom_append_l, assembleFrom_cons_l, assembleFrom_nil,
+      List.append_nil]
+    show _ ++ (assembleFrom 0 inner).l = _
+    rw [assembleFrom_l_off 0 (0 + (outer.map (·.n)).sum) inner]
+  · rw [assemble_u, assemble_u, assembleFrom_append_u, assembleFrom_append_u, assembleFrom_cons_u, assembleFrom_nil,
+      List.append_nil]
+    show _ ++ (assembleFrom 0 inner).u = _
+    rw [assembleFrom_u_off 0 (0 + (outer.map (·.n)).sum) inner]
+
+/-- **C16 (structured vs flat, restrictions).**  Provided every asset's dispatch rows sit at its own
+    nodes, the inner non-external node names do not occur among the nodes of the outer assets and are
+    not skipped, a point satisfies all rows of the portfolio with the structured asset iff it satisfies
+    all rows of the flat portfolio: the asset rows coincide (shifted by the same offset), every nodal
+    row of the flat problem at an inner node is an `S` row inside the structured asset and vice versa,
+    and the nodal rows at outer nodes have the same coefficients (dispatch rows at external nodes keep
+    type 'd', variable and factor).  Together with `structured_flat_vectors`: same feasible set, same
+    objective, hence same optimal value and the same optimal points. -/
+theorem structured_flat (name : String) (ext : List String) (outer inner : List AssetProblem)
+    (gridI : List Nat) (skip : List String)
+    (hwo : ∀ a ∈ outer, DispAtOwnNodes a) (hwi : ∀ a ∈ inner, DispAtOwnNodes a)
+    (hsep : ∀ a ∈ outer, ∀ n ∈ a.nodes, n ∈ portfolioNodes inner → n ∈ ext)
+    (hskip : ∀ n ∈ portfolioNodes inner, n ∉ ext → n ∉ skip) (x : Vec) :
+    (∀ r ∈ (assemble (outer ++ [structured name ext inner gridI]) gridI skip).rows, r.Sat x) ↔
+    (∀ r ∈ (assemble (outer ++ inner) gridI skip).rows, r.Sat x) := by
+  have hoff : (assembleFrom (0 + (outer.map (·.n)).sum) inner).mapping =
+      (assembleFrom 0 inner).mapping.map (MapRow.shift (outer.map (·.n)).sum) := by
+    have := assembleFrom_mapping_shift inner (outer.map (·.n)).sum 0
+    simpa using this
+  have hoffR : (assembleFrom (0 + (outer.map (·.n)).sum) inner).rows =
+      (assembleFrom 0 inner).rows.map (Row.rename ((outer.map (·.n)).sum + ·)) := by
+    have := assembleFrom_rows_shift inner (outer.map (·.n)).sum 0
+    simpa using this
+  have hM2 : (assembleFrom 0 (outer ++ inner)).mapping =
+      (assembleFrom 0 outer).mapping ++ (assembleFrom 0 inner).mapping.map (MapRow.shift (outer.map (·.n)).sum) := by
+    rw [assembleFrom_append_mapping, hoff]
+  have hM1 : (assembleFrom 0 (outer ++ [structured name ext inner gridI])).mapping =
+      (assembleFrom 0 outer).mapping ++
+        ((assembleFrom 0 inner).mapping.map (MapRow.shift (outer.map (·.n)).sum)).map (structuredMapRow name ext) := by
+    rw [assembleFrom_append_mapping, assembleFrom_cons_mapping, assembleFrom_nil, List.append_nil]
+    show _ ++ (((assemble inner gridI ext).mapping.map (structuredMapRow name ext)).map _) = _
+    rw [assemble_mapping, List.map_map, List.map_map]
+    congr 1
+    apply List.map_congr_left
+    intro m _
+    simp only [Function.comp, smr_shift, Nat.zero_add]
+  have hR2 : (assembleFrom 0 (outer ++ inner)).rows =
+      (assembleFrom 0 outer).rows ++ (assembleFrom 0 inner).rows.map (Row.rename ((outer.map (·.n)).sum + ·)) := by
+    rw [assembleFrom_append_rows, hoffR]
+  have hR1 : (assembleFrom 0 (outer ++ [structured name ext inner gridI])).rows =
+      (assembleFrom 0 outer).rows ++
+        (((assembleFrom 0 inner).rows ++ (nodalPairs (assembleFrom 0 inner).mapping (portfolioNodes inner) ext gridI).map
+          (fun p => nodalRow (assembleFrom 0 inner).mapping p.2 p.1)).map Row.nToS).map
+            (Row.rename ((outer.map (·.n)).sum + ·)) := by
+    rw [assembleFrom_append_rows, assembleFrom_cons_rows, assembleFrom_nil, List.append_nil]
+    show _ ++ (((assemble inner gridI ext).rows.map Row.nToS).map _) = _
+    rw [assemble_rows, Nat.zero_add]
+  -- hypotheses of the core lemma
+  have hO : ∀ m ∈ (assembleFrom 0 outer).mapping, m.kind = .d → ∀ n, m.node = some n → n ∈ portfolioNodes outer := by
+    intro m hm hk n hn
+    obtain ⟨a, ha, m', hm', o, rfl⟩ := mem_assembleFrom_mapping outer 0 m hm
+    exact mem_portfolioNodes outer a ha n (hwo a ha m' hm' hk n hn)
+  have hI : ∀ m ∈ (assembleFrom 0 inner).mapping.map (MapRow.shift (outer.map (·.n)).sum), m.kind = .d →
+      ∀ n, m.node = some n → n ∈ portfolioNodes inner := by
+    intro m hm hk n hn
+    obtain ⟨m0, hm0, rfl⟩ := List.mem_map.mp hm
+    obtain ⟨a, ha, m', hm', o, rfl⟩ := mem_assembleFrom_mapping inner 0 m0 hm0
+    exact mem_portfolioNodes inner a ha n (hwi a ha m' hm' hk n hn)
+  have hsep' : ∀ n ∈ portfolioNodes outer, n ∈ portfolioNodes inner → n ∈ ext := by
+    intro n hn hni
+    obtain ⟨a, ha, hna⟩ := (mem_portfolioNodes_iff outer n).mp hn
+    exact hsep a ha n hna hni
+  have h1 : ∀ n, n ∈ portfolioNodes (outer ++ [structured name ext inner gridI]) ↔ n ∈ portfolioNodes outer ∨ n ∈ ext := by
+    intro n
+    rw [mem_portfolioNodes_iff, mem_portfolioNodes_iff]
+    constructor
+    · rintro ⟨a, ha, hn⟩
+      rcases List.mem_append.mp ha with h | h
+      · exact Or.inl ⟨a, h, hn⟩
+      · have : a = structured name ext inner gridI := by simpa using h
+        subst this; exact Or.inr hn
+    · rintro (⟨a, ha, hn⟩ | hn)
+      · exact ⟨a, List.mem_append.mpr (Or.inl ha), hn⟩
+      · exact ⟨structured name ext inner gridI, by simp, hn⟩
+  have h2 : ∀ n, n ∈ portfolioNodes (outer ++ inner) ↔ n ∈ portfolioNodes outer ∨ n ∈ portfolioNodes inner := by
+    intro n
+    simp only [mem_portfolioNodes_iff, List.mem_append]
+    constructor
+    · rintro ⟨a, ha | ha, hn⟩
+      · exact Or.inl ⟨a, ha, hn⟩
+      · exact Or.inr ⟨a, ha, hn⟩
+    · rintro (⟨a, ha, hn⟩ | ⟨a, ha, hn⟩)
+      · exact ⟨a, Or.inl ha, hn⟩
+      · exact ⟨a, Or.inr ha, hn⟩
+  have key := nodal_core (assembleFrom 0 outer).mapping
+    ((assembleFrom 0 inner).mapping.map (MapRow.shift (outer.map (·.n)).sum)) name ext
+    (portfolioNodes outer) (portfolioNodes inner) skip gridI hO hI hsep' hskip _ _ h1 h2 x
+  rw [nodalPairs_map_shift] at key
+  -- rows of either problem, piece by piece
+  have conv1 : ∀ r : Row, ((r.nToS).rename ((outer.map (·.n)).sum + ·)).Sat x ↔
+      (r.rename ((outer.map (·.n)).sum + ·)).Sat x := by
+    intro r; rw [sat_rename, nToS_sat, ← sat_rename]
+  have conv2 : ∀ n t, ((nodalRow (assembleFrom 0 inner).mapping n t).rename ((outer.map (·.n)).sum + ·)).Sat x ↔
+      (nodalRow ((assembleFrom 0 inner).mapping.map (MapRow.shift (outer.map (·.n)).sum)) n t).eval x = 0 := by
+    intro n t; rw [← nodalRow_map_shift, nodalRow_sat_iff]
+  rw [assemble_rows, assemble_rows, hM1, hM2, hR1, hR2]
+  simp only [List.forall_mem_append, List.forall_mem_map, conv1, conv2, nodalRow_sat_iff]
+  constructor
+  · rintro ⟨⟨ho, hi, hA⟩, hB⟩
+    exact ⟨⟨ho, hi⟩, key.mp ⟨hA, hB⟩⟩
+  · rintro ⟨⟨ho, hi⟩, h⟩
+    obtain ⟨hA, hB⟩ := key.mpr h
+    exact ⟨⟨ho, hi, hA⟩, hB⟩
+
+/-- non-vacuity of `structured_flat`: a market at the outer node `N`; inside the structured asset a supply
+    contract at the inner node `i` and a transport `i → N` with efficiency 1/2 (one variable, two mapping
+    rows); the hypotheses hold, the point (market −1, supply 2, transport 2) satisfies the rows of both
+    problems, the structured problem has the inner balance as an `S` row and one `N` row, the flat one two
+    `N` rows -/
+def exMkt : AssetProblem :=
+  { name := "mkt", nodes := ["N"], c := [-5], l := [-10], u := [10], rows := [],
+    mapping := [⟨0, "mkt", some "N", .d, 0, 1, false, "disp"⟩] }
+def exSup : AssetProblem :=
+  { name := "sup", nodes := ["i"], c := [1], l := [0], u := [4], rows := [⟨[(0, 1)], 3, .U⟩],
+    mapping := [⟨0, "sup", some "i", .d, 0, 1, false, "disp"⟩] }
+def exTr : AssetProblem :=
+  { name := "tr", nodes := ["i", "N"], c := [0], l := [0], u := [5], rows := [],
+    mapping := [⟨0, "tr", some "i", .d, 0, -1, false, "disp"⟩, ⟨0, "tr", some "N", .d, 0, 1/2, false, "disp"⟩] }
+def exXS : Vec := fun j => if j = 0 then -1 else 2
+
+example : ∀ a ∈ [exMkt, exSup, exTr], DispAtOwnNodes a := by
+  intro a ha m hm hk n hn
+  simp only [List.mem_cons, List.not_mem_nil, or_false] at ha
+  rcases ha with rfl | rfl | rfl <;> simp [exMkt, exSup, exTr] at hm <;> rcases hm with rfl | rfl <;>
+    simp_all [exMkt, exSup, exTr]
+
+example : (∀ a ∈ [exMkt], ∀ n ∈ a.nodes, n ∈ portfolioNodes [exSup, exTr] → n ∈ ["N"]) ∧
+    (∀ n ∈ portfolioNodes [exSup, exTr], n ∉ ["N"] → n ∉ ([] : List String)) ∧
+    (∀ r ∈ (assemble ([exMkt] ++ [structured "sa" ["N"] [exSup, exTr] [0]]) [0] []).rows, r.Sat exXS) ∧
+    (∀ r ∈ (assemble ([exMkt] ++ [exSup, exTr]) [0] []).rows, r.Sat exXS) ∧
+    ((assemble ([exMkt] ++ [structured "sa" ["N"] [exSup, exTr] [0]]) [0] []).rows.map (·.kind)) = [.U, .S, .N] ∧
+    ((assemble ([exMkt] ++ [exSup, exTr]) [0] []).rows.map (·.kind)) = [.U, .N, .N] := by
+  decide +kernel
+
 end EAO.C16
